@@ -37,7 +37,10 @@ def gen_dir(rng, depth, max_depth, counter, force_index=False):
         d["hidden"].append(names.pop() + ".md~")
     if depth < max_depth:
         for _ in range(rng.randint(0, 2 if depth else 3)):
-            d["dirs"][names.pop()] = gen_dir(rng, depth + 1, max_depth, counter)
+            dn = names.pop()
+            if rng.random() < 0.1:
+                dn = dn + rng.choice([".md", ".v2", " dir"])   # a directory named like a page file, with a dot, with a blank
+            d["dirs"][dn] = gen_dir(rng, depth + 1, max_depth, counter)
     if rng.random() < 0.3:
         d["assets"].append("assets")
     if rng.random() < 0.2:
@@ -70,7 +73,7 @@ def gen_page(rng, counter, titled=True):
     title = "Title %d" % n
     if ACCENT and rng.random() < 0.6:
         title = "Titre \u00e9t\u00e9 %d" % n   # non-ASCII text for worlds with a non-UTF-8 `encoding`
-    return {"title": title if titled else None, "n": n,
+    return {"title": title if titled else None, "n": n, "indent": rng.choice(["", "", "", "", "    ", "\t", "      "]),
             "author": "auth%d" % n if rng.random() < 0.3 else None, "torn": None, "links": []}
 
 
@@ -157,6 +160,10 @@ def page_text(rel, page):
         else:
             L.append("[home](|url|/index.html)")
         L.append("")
+    ind = page.get("indent") or ""
+    if ind:
+        # the whole file uniformly indented (FORD dedents a page file before reading its metadata)
+        L = [(ind + l if l else l) for l in L]
     return "\n".join(L) + "\n"
 
 
